@@ -36,6 +36,7 @@ import (
 	"github.com/osrg/gobgp/v4/api"
 	"github.com/osrg/gobgp/v4/internal/pkg/table"
 	"github.com/osrg/gobgp/v4/internal/verif/polcfg"
+	"github.com/osrg/gobgp/v4/internal/verif/seeds"
 	"github.com/osrg/gobgp/v4/internal/verif/sx"
 	"github.com/osrg/gobgp/v4/pkg/apiutil"
 	"github.com/osrg/gobgp/v4/pkg/config/oc"
@@ -179,81 +180,9 @@ func hdr(b []byte) int {
 	return 3
 }
 
-// attributes and families the package's test UPDATE does not contain, built with the package constructors
-func extraSeeds() []bgp.PathAttributeInterface {
-	var out []bgp.PathAttributeInterface
-	mp := func(f bgp.Family, nh string, ns ...bgp.NLRI) {
-		var l []bgp.PathNLRI
-		for _, n := range ns {
-			if n != nil && !reflect.ValueOf(n).IsNil() {
-				l = append(l, bgp.PathNLRI{NLRI: n})
-			}
-		}
-		var a *bgp.PathAttributeMpReachNLRI
-		var err error
-		if nh == "" {
-			a, err = bgp.NewPathAttributeMpReachNLRI(f, l)
-		} else {
-			a, err = bgp.NewPathAttributeMpReachNLRI(f, l, netip.MustParseAddr(nh))
-		}
-		if err == nil && a != nil {
-			out = append(out, a)
-		}
-	}
-	rd := bgp.NewRouteDistinguisherTwoOctetAS(65000, 100)
-	rt := bgp.NewTwoOctetAsSpecificExtended(bgp.EC_SUBTYPE_ROUTE_TARGET, 65000, 200, true)
-	p6, _ := bgp.NewIPAddrPrefix(netip.MustParsePrefix("2001:db8:1::/48"))
-	mp(bgp.RF_IPv6_UC, "2001:db8::1", p6)
-	l6, _ := bgp.NewLabeledIPAddrPrefix(netip.MustParsePrefix("2001:db8:2::/64"), *bgp.NewMPLSLabelStack(100, 200))
-	mp(bgp.RF_IPv6_MPLS, "2001:db8::1", l6)
-	v6, _ := bgp.NewLabeledVPNIPAddrPrefix(netip.MustParsePrefix("2001:db8:3::/56"), *bgp.NewMPLSLabelStack(300), rd)
-	mp(bgp.RF_IPv6_VPN, "2001:db8::1", v6)
-	mp(bgp.RF_RTC_UC, "10.0.0.1", bgp.NewRouteTargetMembershipNLRI(65000, rt), bgp.NewRouteTargetMembershipNLRI(0, nil))
-	en, _ := bgp.NewEncapNLRI(netip.MustParseAddr("10.9.9.9"))
-	mp(bgp.RF_IPv4_ENCAP, "10.0.0.1", en)
-	mp(bgp.RF_OPAQUE, "10.0.0.1", bgp.NewOpaqueNLRI([]byte("key"), []byte("value")))
-	d4, _ := bgp.NewIPAddrPrefix(netip.MustParsePrefix("10.1.2.0/24"))
-	s4, _ := bgp.NewIPAddrPrefix(netip.MustParsePrefix("10.3.0.0/16"))
-	comps := []bgp.FlowSpecComponentInterface{bgp.NewFlowSpecDestinationPrefix(d4), bgp.NewFlowSpecSourcePrefix(s4),
-		bgp.NewFlowSpecComponent(bgp.FLOW_SPEC_TYPE_IP_PROTO, []*bgp.FlowSpecComponentItem{bgp.NewFlowSpecComponentItem(bgp.DEC_NUM_OP_EQ, 6)}),
-		bgp.NewFlowSpecComponent(bgp.FLOW_SPEC_TYPE_DST_PORT, []*bgp.FlowSpecComponentItem{bgp.NewFlowSpecComponentItem(bgp.DEC_NUM_OP_GT_EQ, 1000), bgp.NewFlowSpecComponentItem(bgp.DEC_NUM_OP_AND|bgp.DEC_NUM_OP_LT_EQ, 70000)})}
-	if fs, err := bgp.NewFlowSpecUnicast(bgp.RF_FS_IPv4_UC, comps); err == nil {
-		mp(bgp.RF_FS_IPv4_UC, "", fs)
-	}
-	if fs, err := bgp.NewFlowSpecVPN(bgp.RF_FS_IPv4_VPN, rd, comps); err == nil {
-		mp(bgp.RF_FS_IPv4_VPN, "", fs)
-	}
-	mp(bgp.RF_EVPN, "10.0.0.1", bgp.NewEVPNIPMSIRoute(rd, 5, rt))
-	mp(bgp.RF_MUP_IPv4, "10.0.0.1", bgp.NewMUPInterworkSegmentDiscoveryRoute(rd, netip.MustParsePrefix("10.5.0.0/16")),
-		bgp.NewMUPDirectSegmentDiscoveryRoute(rd, netip.MustParseAddr("10.5.5.5")))
-	if sr, err := bgp.NewSRPolicy(bgp.RF_SR_POLICY_IPv4, 96, 1, 100, []byte{10, 0, 0, 9}); err == nil {
-		mp(bgp.RF_SR_POLICY_IPv4, "10.0.0.1", sr)
-	}
-	out = append(out, bgp.NewPathAttributeLargeCommunities([]*bgp.LargeCommunity{bgp.NewLargeCommunity(65000, 1, 2), bgp.NewLargeCommunity(4200000000, 0, 4294967295)}))
-	out = append(out, bgp.NewPathAttributeAigp([]bgp.AigpTLVInterface{bgp.NewAigpTLVIgpMetric(1000), bgp.NewAigpTLVDefault(9, []byte{1, 2, 3})}))
-	e4, _ := bgp.NewIPv4AddressSpecificExtended(bgp.EC_SUBTYPE_ROUTE_TARGET, netip.MustParseAddr("10.0.0.7"), 7, true)
-	r4, _ := bgp.NewRedirectIPv4AddressSpecificExtended(netip.MustParseAddr("10.0.0.8"), 8)
-	out = append(out, bgp.NewPathAttributeExtendedCommunities([]bgp.ExtendedCommunityInterface{rt, e4,
-		bgp.NewFourOctetAsSpecificExtended(bgp.EC_SUBTYPE_ROUTE_ORIGIN, 4200000000, 9, false), bgp.NewLinkBandwidthExtended(65000, 125000),
-		bgp.NewColorExtended(77), bgp.NewEncapExtended(bgp.TUNNEL_TYPE_VXLAN), bgp.NewDefaultGatewayExtended(), bgp.NewRoutersMacExtended("00:11:22:33:44:55"),
-		bgp.NewETreeExtended(100, true), bgp.NewMulticastFlagsExtended(true, false), bgp.NewTrafficRateExtended(65000, 1000.5),
-		bgp.NewTrafficActionExtended(true, false), bgp.NewRedirectTwoOctetAsSpecificExtended(65000, 300), r4,
-		bgp.NewRedirectFourOctetAsSpecificExtended(4200000000, 10), bgp.NewTrafficRemarkExtended(46)}))
-	e6, _ := bgp.NewIPv6AddressSpecificExtended(bgp.EC_SUBTYPE_ROUTE_TARGET, netip.MustParseAddr("2001:db8::7"), 7, true)
-	out = append(out, bgp.NewPathAttributeIP6ExtendedCommunities([]bgp.ExtendedCommunityInterface{e6}))
-	ep, _ := bgp.NewTunnelEncapSubTLVEgressEndpoint(netip.MustParseAddr("10.0.0.9"))
-	out = append(out, bgp.NewPathAttributeTunnelEncap([]*bgp.TunnelEncapTLV{bgp.NewTunnelEncapTLV(bgp.TUNNEL_TYPE_VXLAN, []bgp.TunnelEncapSubTLVInterface{
-		bgp.NewTunnelEncapSubTLVEncapsulation(100, []byte{1, 2}), bgp.NewTunnelEncapSubTLVProtocol(0x800), bgp.NewTunnelEncapSubTLVColor(5), ep,
-		bgp.NewTunnelEncapSubTLVUDPDestPort(4789), bgp.NewTunnelEncapSubTLVUnknown(99, []byte{9})})}))
-	if tid, err := bgp.NewIngressReplTunnelID(netip.MustParseAddr("10.0.0.10")); err == nil {
-		out = append(out, bgp.NewPathAttributePmsiTunnel(bgp.PMSI_TUNNEL_TYPE_INGRESS_REPL, true, 1000, tid))
-	}
-	return out
-}
-
 func seedAttrs() []bgp.PathAttributeInterface {
 	u := bgp.NewTestBGPUpdateMessage().Body.(*bgp.BGPUpdate)
-	return append(append([]bgp.PathAttributeInterface{}, u.PathAttributes...), extraSeeds()...)
+	return append(append([]bgp.PathAttributeInterface{}, u.PathAttributes...), seeds.Extra()...)
 }
 
 // values the codec accepts although they are not well-formed: the API form recomputes the redundant field
@@ -902,7 +831,7 @@ func run(line string) (out string) {
 				out = append(out, hx(b))
 			}
 		}
-		for _, a := range extraSeeds() {
+		for _, a := range seeds.Extra() {
 			if b, err := bgp.NewBGPUpdateMessage(nil, []bgp.PathAttributeInterface{a}, nil).Serialize(&bgp.MarshallingOption{}); err == nil {
 				out = append(out, hx(b))
 			}
